@@ -382,13 +382,36 @@ pub fn gen_mux(seed: u64) -> Scenario {
         let n_items = 1 + r.usize(2);
         let items = (0..n_items).map(|i| ItemPlan { gap_ms: 0, op: gen_item(&mut r, &format!("{htok}:i{i}")), ctrls: None }).collect();
         sc.plan.by_token.insert(htok.clone(), ReplyPlan::Items { items, done: None, extra: vec![] });
+        // Variant "orphan": the stream is dropped without finish() after its first item while the server goes on
+        // sending. The ID of such a search is never released (nobody finished it), so the later items cannot
+        // reach anybody - not even once the counter has come round.
+        let orphan = r.chance(1, 2);
+        if orphan {
+            let more = 3 + r.usize(4);
+            if let Some(ReplyPlan::Items { items, .. }) = sc.plan.by_token.get_mut(&htok) {
+                items.truncate(1);
+                for i in 0..more {
+                    items.push(ItemPlan { gap_ms: if i < 2 { 2 } else { 3 }, op: gen_item(&mut r, &format!("{htok}:late{i}")), ctrls: None });
+                }
+            }
+        }
         let mut cs = ClientScript::default();
         cs.steps.push(Step::Open { token: htok.clone(), slot: 0, search: simple_search(&htok, &mut r), adapter: Adapter::Direct, mods: Mods::default() });
         cs.steps.push(Step::Next { slot: 0, cancel_after_polls: None });
+        if orphan {
+            cs.steps.push(Step::DropStream { slot: 0 });
+            cs.steps.push(Step::Sleep { ms: 5 });
+        }
         cs.steps.push(Step::SetIdCounterBefore { token: htok.clone(), back: 1 + r.below(3) as i32 });
         for k in 0..2 + r.usize(3) {
             let tok = format!("h{c}k{k}");
-            if r.chance(1, 3) {
+            if orphan {
+                // slow replies: the operations are outstanding while the orphan's items keep coming
+                let op = gen_single_op(&mut r, &tok);
+                let plan = gen_single_plan(&mut r, &op, &tok, &[3, 5], false);
+                sc.plan.by_token.insert(tok.clone(), plan);
+                cs.steps.push(Step::Op { token: tok, op, mods: Mods::default(), cancel_after_polls: None });
+            } else if r.chance(1, 3) {
                 let plan = gen_items_plan(&mut r, &tok, 2, true, &[0, 1]);
                 sc.plan.by_token.insert(tok.clone(), plan);
                 cs.steps.push(Step::Op { token: tok.clone(), op: OpSpec::Search(simple_search(&tok, &mut r)), mods: Mods::default(), cancel_after_polls: None });
@@ -399,10 +422,12 @@ pub fn gen_mux(seed: u64) -> Scenario {
                 cs.steps.push(Step::Op { token: tok, op, mods: Mods::default(), cancel_after_polls: None });
             }
         }
-        if n_items > 1 {
-            cs.steps.push(Step::Next { slot: 0, cancel_after_polls: None });
+        if !orphan {
+            if n_items > 1 {
+                cs.steps.push(Step::Next { slot: 0, cancel_after_polls: None });
+            }
+            cs.steps.push(Step::Finish { slot: 0 });
         }
-        cs.steps.push(Step::Finish { slot: 0 });
         sc.clients.push(cs);
         moved_counter = true;
     }
@@ -426,6 +451,19 @@ pub fn gen_mux(seed: u64) -> Scenario {
         }
     }
     sc.id_table = gen_id_start(&mut r);
+    if !moved_counter && r.chance(1, 8) {
+        // the counter passes the top of the ID space during the run, while notices with message ID 0 arrive
+        sc.id_table = Some((ID_MAX - r.below(6) as i32, vec![]));
+        for i in 0..1 + r.usize(3) {
+            let label = format!("notice{i}");
+            sc.plan.unsolicited.push(Unsol {
+                at_ms: r.below(8),
+                id: UnsolId::Zero,
+                op: RespOp::Result { tag: *r.pick(&[24, 24, 1, 7, 11]), res: ResultSpec { exop_name: Some("1.3.6.1.4.1.1466.20036".into()), ..gen_result(&mut r, &label) } },
+                ctrls: None,
+            });
+        }
+    }
     let start = sc.id_table.as_ref().map(|t| t.0 as i64).unwrap_or(0);
     keep_ids_apart(&mut sc, start);
     sc
@@ -523,14 +561,51 @@ pub fn gen_stream(seed: u64) -> Scenario {
                     cs.steps.push(Step::Op { token: tok.clone(), op: OpSpec::Search(simple_search(&tok, &mut r)), mods, cancel_after_polls: None });
                 }
                 k => {
-                    let adapter = if k % 2 == 0 { Adapter::Direct } else { Adapter::EntriesOnly };
+                    let mut adapter = if k % 2 == 0 { Adapter::Direct } else { Adapter::EntriesOnly };
+                    if timeout.is_none() && r.chance(1, 8) {
+                        // a failing adapter of the caller's own: Error after its failure, whatever the server sent
+                        adapter = Adapter::FailAfter(r.usize(n_items + 2) as u32);
+                    }
                     let slot = ep;
+                    // error episode: the server never finishes the search; the caller reads what there is, abandons the
+                    // search through the stream's own handle and goes on calling: next() must fail, the state is Error
+                    let err_reads = if timeout.is_none() && r.chance(1, 6) {
+                        match sc.plan.by_token.get_mut(&tok) {
+                            Some(ReplyPlan::Items { items, done, .. }) => {
+                                *done = None;
+                                if adapter == Adapter::EntriesOnly {
+                                    while matches!(items.last(), Some(it) if !matches!(it.op, RespOp::Entry { .. })) {
+                                        items.pop();
+                                    }
+                                    Some(items.iter().filter(|it| matches!(it.op, RespOp::Entry { .. })).count())
+                                } else {
+                                    Some(items.len())
+                                }
+                            }
+                            _ => None,
+                        }
+                    } else {
+                        None
+                    };
                     cs.steps.push(Step::Open { token: tok.clone(), slot, search: simple_search(&tok, &mut r), adapter, mods });
                     let calls = r.usize(17);
                     // bias: often read exactly to the end first
-                    let read_first = if r.chance(1, 2) { n_items + 1 } else { 0 };
+                    let read_first = match err_reads {
+                        Some(k) => k,
+                        None => {
+                            if r.chance(1, 2) {
+                                n_items + 1
+                            } else {
+                                0
+                            }
+                        }
+                    };
                     for _ in 0..read_first.min(16) {
                         cs.steps.push(Step::Next { slot, cancel_after_polls: None });
+                    }
+                    if err_reads.is_some() {
+                        cs.steps.push(Step::StreamAbandon { slot });
+                        sc.note = "abandon".into();
                     }
                     for _ in 0..calls.saturating_sub(read_first).max(1) {
                         match r.below(10) {
@@ -652,7 +727,14 @@ pub fn gen_leak(seed: u64) -> Scenario {
                             });
                         }
                     }
-                    40..=46 => {
+                    40..=41 => {
+                        // the start of a streaming search is dropped after a poll or two: either the request never
+                        // leaves the client (and nothing may remain of it) or it does and nobody ever finishes the search
+                        let plan = gen_items_plan(&mut r, &tok, 2, true, &[0, 1]);
+                        sc.plan.by_token.insert(tok.clone(), plan);
+                        scripts[c].steps.push(Step::OpenDropped { token: tok.clone(), search: simple_search(&tok, &mut r), polls: 1 + r.below(2) as u32 });
+                    }
+                    42..=46 => {
                         // search()
                         let plan = gen_items_plan(&mut r, &tok, 4, true, &[0, 0, 1]);
                         sc.plan.by_token.insert(tok.clone(), plan);
@@ -715,7 +797,15 @@ pub fn gen_leak(seed: u64) -> Scenario {
                         // sometimes the server stalls after the items (no SearchResultDone ever)
                         let stalls = r.chance(1, 4);
                         let plan = gen_items_plan(&mut r, &tok, 4, !stalls, &[0, 0, 1]);
-                        let adapter = if r.chance(1, 2) { Adapter::Direct } else { Adapter::EntriesOnly };
+                        let mut adapter = if r.chance(1, 2) { Adapter::Direct } else { Adapter::EntriesOnly };
+                        if r.chance(1, 5) {
+                            // an adapter that fails after a few items: the stream is in the Error state when it is finished
+                            let n = match &plan {
+                                ReplyPlan::Items { items, .. } => items.len(),
+                                _ => 0,
+                            };
+                            adapter = Adapter::FailAfter(r.usize(n + 1) as u32);
+                        }
                         // number of next() calls that cannot block: for EntriesOnly only entries count
                         let n_items = match &plan {
                             ReplyPlan::Items { items, .. } => {
@@ -1024,6 +1114,15 @@ pub fn gen_time(seed: u64) -> Scenario {
                     slot += 1;
                 }
                 0..=4 => {
+                    if r.chance(1, 6) {
+                        // a timed call that is refused before anything is sent: its timeout must not reach the next call
+                        let rop = if r.chance(1, 2) {
+                            OpSpec::Add { dn: format!("cn=refused,{tok}"), attrs: vec![(b"cn".to_vec(), vec![])] }
+                        } else {
+                            OpSpec::Modify { dn: format!("cn=refused,{tok}"), mods: vec![ModSpec::Add(b"cn".to_vec(), vec![])] }
+                        };
+                        cs.steps.push(Step::Op { token: format!("refused-{tok}"), op: rop, mods: Mods { timeout_ms: Some(t), controls: None, opts: None }, cancel_after_polls: None });
+                    }
                     let op = gen_single_op(&mut r, &tok);
                     let mut plan = gen_single_plan(&mut r, &op, &tok, &[0], false);
                     if let ReplyPlan::Single { after_ms, .. } = &mut plan {
@@ -1448,7 +1547,13 @@ pub fn gen_seq(seed: u64) -> Scenario {
     let mut cs = ClientScript::default();
     let n = 2 + r.usize(9);
     let mut arrival = 0usize;
-    for _ in 0..n {
+    // rarely one request with a very large element; the transport then takes whole buffers
+    let big_at = if r.chance(1, 120) { Some(r.usize(n)) } else { None };
+    if big_at.is_some() {
+        sc.knobs.write_quota = 0;
+        sc.knobs.write_pending_pm = 0;
+    }
+    for opix in 0..n {
         if r.chance(1, 4) {
             cs.steps.push(Step::SetMods { mods: gen_mods(&mut r) });
         }
@@ -1463,6 +1568,25 @@ pub fn gen_seq(seed: u64) -> Scenario {
                 1 => OpSpec::Modify { dn: gen_dn(&mut r), mods: vec![ModSpec::Add(b"cn".to_vec(), vec![])] },
                 _ => OpSpec::Search(SearchSpec { base: gen_dn(&mut r), scope: 2, filter_str: "(cn=unbalanced".into(), filter: None, attrs: vec![] }),
             };
+        }
+        if !refused && big_at == Some(opix) {
+            // one element whose length needs three length octets (64 KiB and up)
+            let size = *r.pick(&[65_535usize, 65_536, 65_537, 70_000, 131_072, 300_000, 1_048_575, 1_048_576]);
+            let blob = r.bytes(size);
+            match &mut op {
+                OpSpec::SimpleBind { pw, .. } => *pw = "p".repeat(size),
+                OpSpec::Add { attrs, .. } => attrs.push((b"jpegPhoto".to_vec(), vec![blob])),
+                OpSpec::Compare { val, .. } => *val = blob,
+                OpSpec::Modify { mods, .. } => mods.push(ModSpec::Replace(b"jpegPhoto".to_vec(), vec![blob])),
+                OpSpec::Extended { val, .. } => *val = Some(blob),
+                OpSpec::Delete { dn } | OpSpec::ModifyDn { dn, .. } => *dn = format!("cn={},dc=big", "d".repeat(size)),
+                _ => {
+                    let mut cv = mods.controls.take().unwrap_or_default();
+                    cv.push(Ctl { oid: gen_oid(&mut r).into_bytes(), crit: None, val: Some(blob) });
+                    mods.controls = Some(cv);
+                }
+            }
+            sc.note = format!("big:{size}");
         }
         let tok = format!("#{arrival}");
         let sends = !refused;
@@ -1577,6 +1701,14 @@ pub fn gen_sync(seed: u64) -> Scenario {
     let n = 2 + r.usize(8);
     let mut arrival = 0usize;
     let mut slot = 0usize;
+    // In a fifth of the scripts the server hangs up after 497 ms without traffic (a value no sum of this family's
+    // delays and timeouts reaches): calls left unanswered without a timeout then end with the connection.
+    let idle_close = r.chance(1, 5);
+    if idle_close {
+        sc.plan.close_after_idle_ms = Some(497);
+    }
+    // the idle timer only starts with the server's first emission
+    let mut emitted_any = false;
     for _ in 0..n {
         if r.chance(1, 5) {
             cs.steps.push(Step::SetMods { mods: gen_mods(&mut r) });
@@ -1593,23 +1725,33 @@ pub fn gen_sync(seed: u64) -> Scenario {
                     op = OpSpec::Unbind;
                 }
                 if let OpSpec::Search(_) = op {
-                    let mut p = gen_items_plan(&mut r, &tok, 4, true, &[0, 1]);
+                    // some searches are never finished by the server: search() then ends with the timeout or the connection
+                    let unfinished = r.chance(1, 6);
+                    let mut p = gen_items_plan(&mut r, &tok, 4, !unfinished, &[0, 1]);
                     if let ReplyPlan::Items { done: Some(d), .. } = &mut p {
                         let (res, ctrls) = gen_rich_result(&mut r, &op);
                         d.res = res;
                         d.ctrls = ctrls;
                     }
+                    if unfinished {
+                        if !(idle_close && emitted_any && r.chance(1, 2)) && mods.timeout_ms.is_none() {
+                            mods.timeout_ms = Some(*r.pick(&[5, 50]));
+                        }
+                    } else {
+                        emitted_any = true;
+                    }
                     sc.plan.by_token.insert(tok.clone(), p);
                 } else if !matches!(op, OpSpec::Abandon(_) | OpSpec::Unbind) {
                     let silent = r.chance(1, 8);
                     if silent {
-                        if mods.timeout_ms.is_none() {
+                        if !(idle_close && emitted_any && r.chance(1, 2)) && mods.timeout_ms.is_none() {
                             mods.timeout_ms = Some(*r.pick(&[5, 50]));
                         }
                         sc.plan.by_token.insert(tok.clone(), ReplyPlan::Silent);
                     } else {
                         let (res, ctrls) = gen_rich_result(&mut r, &op);
                         sc.plan.by_token.insert(tok.clone(), ReplyPlan::Single { after_ms: *r.pick(&[0, 0, 1, 3]), res, ctrls, extra: vec![] });
+                        emitted_any = true;
                     }
                 }
                 arrival += 1;
@@ -1625,7 +1767,15 @@ pub fn gen_sync(seed: u64) -> Scenario {
                 cs.steps.push(Step::Op { token: format!("refused{}", cs.steps.len()), op, mods, cancel_after_polls: None });
             }
             _ => {
-                let mut p = gen_items_plan(&mut r, &tok, 5, true, &[0, 1]);
+                let unfinished = r.chance(1, 8);
+                let mut p = gen_items_plan(&mut r, &tok, 5, !unfinished, &[0, 1]);
+                if unfinished {
+                    if !(idle_close && emitted_any && r.chance(1, 2)) && mods.timeout_ms.is_none() {
+                        mods.timeout_ms = Some(*r.pick(&[5, 50]));
+                    }
+                } else {
+                    emitted_any = true;
+                }
                 let n_items = match &p {
                     ReplyPlan::Items { items, .. } => items.len(),
                     _ => 0,
@@ -1656,7 +1806,7 @@ pub fn gen_sync(seed: u64) -> Scenario {
             }
         }
     }
-    if r.chance(1, 4) && arrival > 0 {
+    if !idle_close && r.chance(1, 4) && arrival > 0 {
         sc.plan.close_on_arrival = Some(r.usize(arrival));
     }
     sc.clients.push(cs);
@@ -1737,7 +1887,7 @@ pub fn gen_hostile_item(r: &mut Rng, search: bool, n_ids: usize) -> Hostile {
     let mut bytes = Vec::new();
     let mut spans = Vec::new();
     encode_map(&tlv, 0, &mut bytes, &mut spans);
-    let h = |class: &str, bytes: Vec<u8>, must_end: bool| Hostile { before_emission: 0, class: class.to_string(), bytes, must_end, nest: None, outer_inflated: false };
+    let h = |class: &str, bytes: Vec<u8>, must_end: bool| Hostile { before_emission: 0, class: class.to_string(), bytes, must_end, nest: None, outer_inflated: false, gap_after_ms: 0 };
     let inner: Vec<Span> = spans.iter().filter(|s| s.depth >= 1).cloned().collect();
     match r.below(30) {
         0 => {
@@ -1956,6 +2106,11 @@ pub fn gen_hostile(seed: u64) -> Scenario {
         })
         .sum();
     h.before_emission = if r.chance(2, 3) { 0 } else { r.usize(total_emissions.max(1)) };
+    // in a third of the runs nothing follows the item for a while: a complete frame must be dealt with
+    // when its last byte is there, not when more bytes happen to arrive
+    if r.chance(1, 3) {
+        h.gap_after_ms = *r.pick(&[5, 50, 300]);
+    }
     if h.nest.map_or(false, |(d, ..)| d >= 10_000) {
         // the decoder re-parses the whole buffer for every chunk: keep big frames in one piece
         sc.knobs.chunking = Chunking::Whole;
@@ -2031,13 +2186,23 @@ pub fn gen_estab_url(seed: u64) -> Scenario {
             _ => HostForm::Absent,
         };
         c.explicit_port = c.host != HostForm::Absent && !r.chance(1, 5);
-        c.starttls = c.scheme == "ldap" && r.chance(1, 4);
+        c.starttls = if c.scheme == "ldap" { r.chance(1, 4) } else { r.chance(1, 3) };
         let needs_tls = c.starttls || c.scheme == "ldaps";
         c.peer = if needs_tls {
-            match r.below(4) {
+            match r.below(6) {
                 0 => Peer::Absent,
                 1 => Peer::Stall,
-                _ => Peer::AcceptClose,
+                2 | 3 => Peer::AcceptClose,
+                _ => {
+                    // a TLS-capable server in good order: ldaps must open with TLS whatever the StartTLS flag says
+                    // (a custom connector is used as it is: no_tls_verify only acts on the default one)
+                    if c.host == HostForm::Name {
+                        c.trust_ca = true;
+                    } else {
+                        c.no_tls_verify = true;
+                    }
+                    Peer::Tls { starttls: StartTlsResp::Success, tls: TlsBehaviour::Good }
+                }
             }
         } else {
             match r.below(5) {
@@ -2070,13 +2235,19 @@ pub fn gen_estab_tls(seed: u64) -> Scenario {
     let starttls_scheme = r.chance(3, 5);
     c.scheme = if starttls_scheme { "ldap".into() } else { "ldaps".into() };
     c.starttls = starttls_scheme || r.chance(1, 6); // the flag is ignored for ldaps
-    c.host = if r.chance(7, 10) { HostForm::Name } else { HostForm::Ip4 };
+    // the harness certificate names "localhost" only: an address literal of either family must not verify
+    c.host = match r.below(20) {
+        0..=12 => HostForm::Name,
+        13..=16 => HostForm::Ip4,
+        _ => HostForm::Ip6,
+    };
     c.trust_ca = r.chance(3, 5);
     c.no_tls_verify = r.chance(1, 4);
     let st = if starttls_scheme {
         match r.below(100) {
-            0..=44 => StartTlsResp::Success,
-            45..=59 => StartTlsResp::Code(*r.pick(&[1, 2, 8, 10, 13, 49, 52, 53, 80, 118])),
+            0..=39 => StartTlsResp::Success,
+            // any non-zero code, with the codes some helper of the library treats as "not an error" well represented
+            40..=59 => StartTlsResp::Code(*r.pick(&[10, 10, 10, 5, 6, 14, 1, 2, 8, 13, 49, 52, 53, 80, 118, 4096])),
             60..=67 => StartTlsResp::Garbage,
             68..=75 => StartTlsResp::Close,
             76..=83 => StartTlsResp::Silent,
@@ -2095,7 +2266,7 @@ pub fn gen_estab_tls(seed: u64) -> Scenario {
         c.conn_timeout_ms = Some(*r.pick(&[50, 1000, 30_000]));
     }
     c.peer = Peer::Tls { starttls: st.clone(), tls };
-    c.std_stream = if r.chance(1, 7) { StdKind::Tcp } else { StdKind::None };
+    c.std_stream = if c.host != HostForm::Ip6 && r.chance(1, 7) { StdKind::Tcp } else { StdKind::None };
     c.sync_api = c.conn_timeout_ms.is_none() && st != StartTlsResp::SuccessPlusInjected && r.chance(1, 4);
     estab_scenario("ESTABTLS", &c)
 }
@@ -2133,3 +2304,27 @@ pub fn gen_paged_fault_base(seed: u64) -> Scenario {
     sc.clients.push(cs);
     sc
 }
+
+
+/// Family REALIO (C04 on real transports): one short exchange and one ending per case.
+pub fn gen_realio(seed: u64) -> Scenario {
+    use crate::realio::{Ending, RealCase, Transport};
+    let mut r = Rng::new(seed);
+    let transport = *r.pick(&[Transport::Tcp, Transport::TcpPre, Transport::UnixUrl, Transport::UnixPair, Transport::Ldaps, Transport::StartTls]);
+    let sync_api = r.chance(1, 4);
+    let tcp_based = !matches!(transport, Transport::UnixUrl | Transport::UnixPair);
+    let pending = if sync_api { 1 } else { 1 + r.usize(4) };
+    let ending = match r.below(if tcp_based { 6 } else { 5 }) {
+        0 => Ending::Unbind,
+        1 => Ending::DropHandles,
+        2 => Ending::PeerClose { pending },
+        3 => Ending::PeerGarbage { pending },
+        4 => Ending::PeerCloseIdle,
+        _ => Ending::PeerReset { pending },
+    };
+    let case = RealCase { transport, warmup: r.usize(4), ending, sync_api };
+    let mut sc = Scenario::new("REALIO");
+    sc.note = serde_json::to_string(&case).unwrap();
+    sc
+}
+
